@@ -122,8 +122,16 @@ def gen_life(rng, tier, i):
     reactions = []
     for _ in range(rng.choice([0, 1, 2, 3, 4])):
         reactions.append({"event": "mode_%s_%s" % (rng.choice(allm), rng.choice(PHASES)),
-                          "prio": rng.choice([-5, 1, 150, 1000]), "action": rng.choice(["start", "stop"]),
+                          "prio": rng.choice([-5, 1, 150, 1000]), "action": rng.choice(["start", "stop", "stop_restart"]),
                           "target": rng.choice(allm), "budget": rng.choice([1, 1, 2, 3])})
+    # handlers of a mode's lifecycle events that register things for that mode through the mode API
+    # (mode.delay, mode.switch_handlers, mode.add_mode_event_handler), mostly while it is stopping
+    for _ in range(rng.choice([0, 1, 1, 2, 3])):
+        m = rng.choice(allm)
+        reactions.append({"event": "mode_%s_%s" % (m, rng.choice(PHASES + ["will_stop", "stopping", "stopping", "stopped"])),
+                          "prio": rng.choice([-5, 1, 150, 1000]),
+                          "action": rng.choice(["add_delay", "add_delay", "add_switch", "add_handler"]),
+                          "ms": rng.choice([125, 500, 2000]), "target": m, "budget": rng.choice([1, 2, 3])})
     blockers = []
     for _ in range(rng.choice([0, 0, 1, 1, 2])):
         blockers.append({"event": "mode_%s_%s" % (rng.choice(allm), rng.choice(["starting", "stopping"])),
@@ -142,8 +150,11 @@ def gen_life(rng, tier, i):
             script.append(["post", rng.choice(["s_all", "e_all"])])
         elif r < 0.46:
             script.append(["start", m, rng.choice([None, None, None, 10, 100, 250])])
-        elif r < 0.56:
+        elif r < 0.52:
             script.append(["stop", m])
+        elif r < 0.56:
+            # the restart idiom: stop with a callback that starts the mode (or another one) again
+            script.append(["stopcb", m, m if rng.random() < 0.8 else rng.choice(allm)])
         elif r < 0.62:
             script.append(["postq", "s_" + m if m != "attract" else "reset_complete"])
         elif r < 0.78 and devs:
@@ -228,7 +239,10 @@ class Recorder:
         self.keep = []
         self.depth = 0
         self.nested = False
-        self.outer = None
+        self.stack = []
+        self.canon = {}                 # key id -> canonical text of a handler entry
+        self.start_regs = []            # [mode id, step index, canonical registrations made inside start()]
+        self.regs_missing = []
         self.last = self.snapshot()
         self.prefix = self.build_prefix()
         self.sorted_bad = []            # oracle data: active list not the sorted list of active modes
@@ -267,11 +281,17 @@ class Recorder:
                         cls = 1
                     else:
                         cls = 6         # registered for the mode but tracked nowhere
-                    snap.add((cls, self.ids[owner.name], self.key("h", h.key)))
+                    kid = self.key("h", h.key)
+                    snap.add((cls, self.ids[owner.name], kid))
+                    if kid not in self.canon:
+                        self.canon[kid] = "%s %s %s" % (ev, getattr(h.callback, "__qualname__", "?"), ",".join(sorted(h.kwargs)))
                 elif cb_self is not None and id(cb_self) in dev_owner:
                     mn = dev_owner[id(cb_self)]
                     cls = 4 if EventHandlerKey(h.key, ev) in cb_self.event_keys else 6
-                    snap.add((cls, self.ids[mn], self.key("h", h.key)))
+                    kid = self.key("h", h.key)
+                    snap.add((cls, self.ids[mn], kid))
+                    if kid not in self.canon:
+                        self.canon[kid] = "%s %s %s" % (ev, getattr(h.callback, "__qualname__", "?"), ",".join(sorted(h.kwargs)))
         for sw, lists in m.switch_controller.registered_switches.items():
             for lst in lists:
                 for ent in lst:
@@ -349,12 +369,21 @@ class Recorder:
     # -- lifecycle steps -------------------------------------------------------------------------
     def enter(self, kind, mode, args, kwargs):
         self.depth += 1
+        top = self.stack[-1] if self.stack else None
         if self.depth > 1:
-            # the six methods do not nest, except that the fixed start() finishes a pending stop itself
-            if not (kind == "CbStopped" and self.outer == "Start"):
-                self.nested = True
-            return None
-        self.outer = kind
+            if kind == "CbStopped" and top is not None and top["kind"] == "Start":
+                # the fixed start() finishes a pending stop itself: part of the Start step
+                self.stack.append(None)
+                return None
+            if kind == "Start" and top is not None and top["kind"] == "CbStopped":
+                # a stop callback (mode.stop(callback=...)) starts a mode: the callbacks are the tail of
+                # _mode_stopped_callback, so the CbStopped step ends here and the Start is a step of its own
+                if not top["done"]:
+                    self.finish(top, None)
+            else:
+                self.nested = True      # anything else never nests in MPF; if it does the tie is void
+                self.stack.append(None)
+                return None
         if len(self.steps) > 4000:
             raise RuntimeError("runaway history (generator flaw: endless start/stop chain)")
         snap = self.snapshot()
@@ -363,45 +392,75 @@ class Recorder:
             self.outside_posts += self.posted
         self.posted = []
         self.hook_ran = False
-        pending = bool(getattr(mode, "_cleanup_pending", False))
-        has_flag = hasattr(mode, "_cleanup_pending")
         arg = None
         if kind == "Start":
             mp = kwargs.get("mode_priority", args[0] if args else None)
             arg = mp if isinstance(mp, int) else mode.config["mode"]["priority"]
             self.start_has_queue = "queue" in kwargs
-        return (kind, mode, arg, snap, mode._starting, pending, has_flag)
+        tok = {"kind": kind, "mode": mode, "arg": arg, "before": snap, "was_starting": mode._starting,
+               "pending": bool(getattr(mode, "_cleanup_pending", False)), "has_flag": hasattr(mode, "_cleanup_pending"),
+               "done": False}
+        self.stack.append(tok)
+        return tok
 
     def leave(self, tok, ret):
         self.depth -= 1
+        self.stack.pop()
         if tok is None:
             return
-        kind, mode, arg, before, was_starting, pending, has_flag = tok
+        if tok["done"]:
+            self.env_diff(self.snapshot())      # whatever ran after the nested start
+            self.check_sorted(len(self.steps))
+            return
+        self.finish(tok, ret)
+
+    def finish(self, tok, ret):
+        tok["done"] = True
+        kind, mode, arg, before = tok["kind"], tok["mode"], tok["arg"], tok["before"]
         i = self.ids[mode.name]
         after = self.snapshot()
         if kind == "Start":
-            status = 1 if (mode._starting and not was_starting) else 0
+            status = 1 if (mode._starting and not tok["was_starting"]) else 0
             if status:
                 self.shared_queue_start[i] = bool(self.start_has_queue and mode.config["mode"]["use_wait_queue"])
+                # oracle data: what this start registered for the mode (event, callback, kwargs keys; no priority)
+                self.start_regs.append([i, len(self.steps), sorted(self.canon[k] for c, o, k in after - before
+                                                                   if o == i and k in self.canon)])
         elif kind == "Stop":
             status = 1 if ret else 0
         elif kind == "CbStarted":
             status = 1 if self.hook_ran else 0
         elif kind == "CbStopped":
-            status = (1 if pending else 0) if has_flag else 1
+            status = (1 if tok["pending"] else 0) if tok["has_flag"] else 1
         else:
             status = 1
         kept = before & after
-        self.steps.append([kind, i, arg, status, [a * 8 + b for a, b in self.posted if True], self.active_ids(),
+        self.steps.append([kind, i, arg, status, [a * 8 + b for a, b in self.posted], self.active_ids(),
                            self.phase(mode), self.owned(kept, i)])
         self.posted = []
         self.last = kept
         self.env_diff(after)
         self.check_sorted(len(self.steps))
 
-    def quiescent(self):
+    def check_regs(self, tag):
+        """oracle data: a mode that is up (and not stopping) still has everything its latest start registered"""
+        latest = {}
+        for i, at, regs in self.start_regs:
+            latest[i] = regs
+        have = {}
+        for c, o, k in self.last:
+            if k in self.canon:
+                have.setdefault(o, []).append(self.canon[k])
+        for i, regs in latest.items():
+            if self.phase(self.machine.modes[NAMES[i]]) == 2:
+                missing = multiset_diff(regs, have.get(i, []))
+                if missing:
+                    self.regs_missing.append([tag, i, missing[:4]])
+
+    def quiescent(self, tag=None):
         self.env_diff(self.snapshot())
         self.check_sorted(len(self.steps))
+        self.check_regs(tag)
 
 
 def canonical_dump(machine):
@@ -487,6 +546,8 @@ def run_life(case):
         held = []
         trace = out["handler_trace"]
         requests = []
+        adds = []
+        out["stop_event_ignored"] = []
 
         def settle():
             for _ in range(400):
@@ -510,11 +571,28 @@ def run_life(case):
                     return
                 _r["left"] -= 1
                 mode = machine.modes[_r["target"]]
-                requests.append([_r["event"], _r["action"], _r["target"]])
-                if _r["action"] == "start":
+                act = _r["action"]
+                if act.startswith("add_"):
+                    # code of a mode runs only while the mode is not idle (domain of the model's Add operation)
+                    if not (mode._active or mode._starting or getattr(mode, "_cleanup_pending", False)):
+                        _r["left"] += 1
+                        return
+                    adds.append([_r["event"], act, _r["target"]])
+                    if act == "add_delay":
+                        mode.delay.add(ms=_r["ms"], callback=mode.mode_init)
+                    elif act == "add_switch":
+                        mode.switch_handlers.append(machine.switch_controller.add_switch_handler_obj(
+                            machine.switches["s_start"], mode.mode_init, 1))
+                    else:
+                        mode.add_mode_event_handler("rig_ev_" + _r["target"], mode.mode_stop)
+                    return
+                requests.append([_r["event"], act, _r["target"]])
+                if act == "start":
                     mode.start()
-                else:
+                elif act == "stop":
                     mode.stop()
+                else:
+                    mode.stop(callback=mode.start)
             machine.events.add_handler(r["event"], rh, priority=r["prio"])
         for b in case["blockers"]:
             def bh(queue, _b=b, **kwargs):
@@ -533,15 +611,33 @@ def run_life(case):
         out["steps"] = rec.steps
         _REC[0] = rec
 
+        def stop_events_of(n):
+            return ["game_start", "service_mode_entered"] if n == "attract" else case["modes"][n]["mode"]["stop_events"]
+
+        def accepted_stops(n):
+            i = rec.ids[n]
+            return sum(1 for st in rec.steps if st[0] == "Stop" and st[1] == i and st[3] == 1)
+
+        def post_checked(ev):
+            """oracle data: a mode that is up and not stopping must react to its stop event"""
+            up = {n: accepted_stops(n) for n in names if rec.phase(machine.modes[n]) == 2 and ev in stop_events_of(n)}
+            machine.events.post(ev)
+            settle()
+            for n, cnt in up.items():
+                if accepted_stops(n) == cnt:
+                    out["stop_event_ignored"].append([n, ev, len(rec.steps)])
+
         def quiet(tag):
-            rec.quiescent()
+            rec.quiescent(tag)
             leaks = idle_leaks(machine, names, devices)
             out["quiescent"].append([tag, len(rec.steps), [rec.phase(machine.modes[n]) for n in names], leaks])
 
         def do(op):
             k = op[0]
             if k == "post":
-                machine.events.post(op[1])
+                post_checked(op[1])
+            elif k == "stopcb":
+                machine.modes[op[1]].stop(callback=machine.modes[op[2]].start)
             elif k == "postq":
                 machine.events.post_queue(op[1], callback=lambda **kwargs: None)
             elif k == "start":
@@ -581,6 +677,8 @@ def run_life(case):
             for n, bp in zip(names, out["base_phases"]):
                 mode = machine.modes[n]
                 if bp == 0 and (mode._active or mode._starting):
+                    if rec.phase(mode) == 2 and n != "attract":
+                        post_checked("e_" + n)          # by its own stop event first
                     mode.stop()
                     moved = True
                 elif bp == 2 and not (mode._active or mode._starting):
@@ -624,6 +722,13 @@ def run_life(case):
         out["nested"] = rec.nested
         out["outside_posts"] = rec.outside_posts[:5]
         out["requests"] = len(requests)
+        out["adds"] = len(adds)
+        out["regs_missing"] = rec.regs_missing[:3]
+        cyc = {}
+        for i, at, regs in rec.start_regs:
+            cyc.setdefault(i, []).append(regs)
+        out["cycle_regs_differ"] = [[i, multiset_diff(r, rs[0])[:3], multiset_diff(rs[0], r)[:3]]
+                                    for i, rs in cyc.items() for r in rs[1:] if r != rs[0]][:3]
         out["held_left"] = len(held)
     except BaseException as e:       # what the code raises is data (e.g. a late delay callback on dropped state)
         out["error"] = "%s: %s" % (type(e).__name__, str(e)[:160])
@@ -731,6 +836,17 @@ def oracle_life(case, out):
             break
     if out.get("at_base") and out.get("dump_diff"):
         fails.append({"sig": "registry-not-restored", "what": "registries differ from the pre-start dump: %s" % out["dump_diff"][:6]})
+    if out.get("regs_missing"):
+        tag, i, missing = out["regs_missing"][0]
+        fails.append({"sig": "registrations-lost", "what": "mode %s is up but no longer has what its start registered: %s (script step %s)" %
+                      (NAMES[i], missing, tag)})
+    if out.get("cycle_regs_differ"):
+        i, extra, lacking = out["cycle_regs_differ"][0]
+        fails.append({"sig": "cycle-differs", "what": "a later start of mode %s registered something else than its first start: +%s -%s" %
+                      (NAMES[i], extra, lacking)})
+    if out.get("stop_event_ignored"):
+        n, ev, at = out["stop_event_ignored"][0]
+        fails.append({"sig": "stop-event-ignored", "what": "mode %s was up (not stopping) and did not react to its stop event %s (step %s)" % (n, ev, at)})
     # 4. every accepted start / stop completed once the blockers were released
     for key in ("final_phases_before_stop", "final_phases"):
         ph = out.get(key) or []
@@ -766,7 +882,7 @@ def nontrivial_life(case, out):
     for s in out["steps"]:
         if s[0] == "QStopped":
             starts[s[1]] = starts.get(s[1], 0) + 1
-    return out.get("requests", 0) > 0 or any(v >= 2 for v in starts.values())
+    return out.get("requests", 0) > 0 or out.get("adds", 0) > 0 or any(v >= 2 for v in starts.values())
 
 
 def describe_life(case):
